@@ -3,9 +3,23 @@
    Layers: F = documented format (Format.v), S = abstract spec (Spec/SpecStep), I = model of the Rust (World.step'). *)
 From Coq Require Import List NArith Bool Arith Sorted.
 From Coq Require Import Strings.Byte.
-Require Import BS.Bytes BS.Common BS.Api BS.Layout BS.Format BS.FormatFacts BS.Spec BS.SpecStep.
-Require Import BS.FS BS.FSFacts BS.Meta BS.MetaFacts BS.Header BS.Reader BS.ReaderFacts BS.Index BS.Data BS.DataFacts BS.Seek BS.Series BS.SeriesFacts.
+Require Import BS.Bytes BS.Common BS.Api BS.Layout BS.Format BS.FormatFacts BS.Spec BS.SpecStep BS.Sections.
+Require Import BS.FS BS.FSFacts BS.Meta BS.MetaFacts BS.Header BS.Reader BS.ReaderFacts BS.Index BS.Data BS.DataFacts BS.Seek BS.SeekFacts BS.Series BS.SeriesFacts BS.ReadAllFacts.
 Import ListNotations.
 
-(* theorems for this property are added as the development grows; until then the property is
-   decided by the judge (Layer S/F, extracted) on the implementation and by the correspondence check *)
+(* (I) the reported count of a range is 0 / a range error exactly when nothing is selected; otherwise it is
+   the number of selected lines plus K slots for every full-timestamp section that starts inside the byte
+   range (secs_from: the sections the selected lines open after the governing full timestamp pf) *)
+Theorem C14_count : forall fs sr p hdr ihdr l, RepH fs sr p hdr ihdr l -> forall lo hi,
+  (exists k, n_lines_between sr lo hi fs = (fs, Ok k)
+             /\ match select lo hi l with
+                | [] => k = 0%N
+                | _ => exists pf, (len (select lo hi l) <= k)%N
+                                  /\ k = (len (select lo hi l) + N.of_nat (Layout.K p * length (secs_from p (Some pf) 0 (select lo hi l))))%N
+                end)
+  \/ (select lo hi l = [] /\ n_lines_between sr lo hi fs = (fs, Err ERange))
+  \/ (select lo hi l = [] /\ l = [] /\ n_lines_between sr lo hi fs = (fs, Ok 0%N)).
+Proof. exact n_lines_ok. Qed.
+Print Assumptions C14_count.
+(* partial: |secs_from (Some pf) 0 sel| <= Spec.sections_touched (the number of sections "at or inside the
+   range" as the judge counts them) is not proved; the judge checks that bound on the implementation. *)
